@@ -83,6 +83,18 @@ def cells(tier: str) -> dict:
     narrow("R3team[narrow]", R3)
     narrow("R8[leave,narrow]", lambda: R8("leave"))
     narrow("R8[vacation,narrow]", lambda: R8("vacation"))
+    # priority 0 is a legal priority (the lowest)
+    def prio0():
+        return R1(2), {"e0": (1, 2), "e1": (1, 2), "p0": (0, 2), "p1": (0, 2)}, None
+    out["R1x2[prio 0..2]"] = prio0
+
+    # a high-priority task depending on a container that consists of dated milestones only (scheduled in the pre-pass)
+    def ms_container():
+        sp = Spec([Task("gate"), Task("m1", parent="gate", milestone=True, start=DAY0), Task("m2", parent="gate", milestone=True, start=DAY0 + H),
+                   Task("low", effort=P("e0"), alloc=["r"], prio=P("p0")), Task("high", effort=P("e1"), alloc=["r"], prio=P("p1"), deps=[Dep("gate")])],
+                  [Res("r")], length="2w", effort_unit=H)
+        return sp, {"e0": (1, 3), "e1": (1, 3), "p0": (100, 101), "p1": (900, 901)}, None
+    out["R5[milestone-container]"] = ms_container
     add("R1x2", lambda: R1(2), 6)
     add("R1x3", lambda: R1(3), 3 if tier == "quick" else 4)
     add("R1x2[eff=0.5]", lambda: R1(2, eff=0.5), 4)
@@ -114,7 +126,7 @@ def cells(tier: str) -> dict:
     for kind in ("default", "lunch", "leave", "vacation"):
         add(f"R8[{kind}]", lambda kind=kind: R8(kind), 4, {"s0": (0, 120)})
     if tier == "quick":
-        keep = [n for n in out if "narrow" in n] + ["R1x2", "R1x2[eff=0.5]", "R1x2[res=900]", "R2[gap=None]", "R5containers", "R6[dres]", "R6[wres]",
+        keep = [n for n in out if "narrow" in n] + ["R1x2[prio 0..2]", "R5[milestone-container]", "R1x2", "R1x2[eff=0.5]", "R1x2[res=900]", "R2[gap=None]", "R5containers", "R6[dres]", "R6[wres]",
                                                       "R6[dgroup]", "R6[dres,start13:00]", "R8[default]", "R8[lunch]"]
         out = {n: out[n] for n in keep}
     return out
